@@ -14,7 +14,7 @@ BUDGET = {'quick': 1500, 'thorough': 4000}
 RULE = ('Hypothesis-generated class DAGs (3-9 classes created with type(); bases = subsets of earlier classes made '
         'MRO-acceptable by construction; half of the cases start from a diamond prefix), instantiated twice: as '
         'component classes and as Processor subclasses (some classes falsy, some with value equality: all their '
-        'instances equal, results are compared by identity); a generated assignment of exact types to 1-4 entities (some of their components REPLACED by a new instance of the same type before the queries) '
+        'instances equal, results are compared by identity); a generated assignment of exact types to 1-4 entities (in a quarter of the cases the last entity also holds a bare object() and `object` itself is a query type; some of their components REPLACED by a new instance of the same type before the queries) '
         'and a generated subset of processor classes; then EVERY class of the DAG is used as query type for all '
         'six methods (get, get_component, has_component, remove_component, get_processor, remove_processor), the '
         'removing ones on a rebuilt world. Oracle: issubclass/isinstance. '
@@ -53,6 +53,9 @@ def strategy():
         # repl: which entities have one of their components REPLACED (add_component of a new instance of a type the
         # entity holds) before the queries - bit i: entity i, bits 4-5: which of its components
         'repl': st.integers(0, 63),
+        # root: 1 = the root of every hierarchy takes part: the last entity also holds a bare object() marker (attached
+        # last), and `object` is one of the query types (components and processors)
+        'root': st.integers(0, 3).map(lambda k: int(k == 3)),
     })
 
 
@@ -87,6 +90,8 @@ def run_case(case):
             comps = [t() for t in types]
             for c in comps:
                 c._log = sink
+            if case.get('root') and types is ents[-1]:
+                comps.append(object())
             e = w.create_entity(*comps)
             rows.append((e, comps))
         repl = case.get('repl', 0)
@@ -94,7 +99,8 @@ def run_case(case):
             if repl >> i & 1 and comps:
                 k = (repl >> 4) % len(comps)
                 new = type(comps[k])()
-                new._log = sink
+                if type(new) is not object:
+                    new._log = sink
                 try:
                     w.add_component(e, new)
                 except Exception as exc:
@@ -134,6 +140,9 @@ def run_case(case):
         multi_path = component_queries(w, rows, T, q) or multi_path
     for T in proc_classes:
         multi_path = processor_queries(w, procs, T, q) or multi_path
+    if case.get('root'):
+        component_queries(w, rows, object, q)
+        processor_queries(w, procs, object, q)
     removal_part(case, build, comp_classes, proc_classes, ents, n, q)
     if case.get('late'):
         # a class DEFINED after every existing class has been used as a query type (a plugin, a class factory):
@@ -178,6 +187,8 @@ def run_case(case):
         classes.append('class_defined_after_the_first_queries')
     if case.get('repl', 0) & 15:
         classes.append('component_replaced_before_the_queries')
+    if case.get('root'):
+        classes.append('query_type_object_and_a_bare_object_component')
     return {'nontrivial': multi_base and multi_path, 'classes': classes}
 
 
